@@ -79,6 +79,15 @@ pub fn rng_reset(step_limit: u64) {
     });
 }
 
+/// Zero the draw counter and set the draw limit, keeping log and injection queue.
+pub fn rng_set_limit(step_limit: u64) {
+    RNG.with(|s| {
+        let mut s = s.borrow_mut();
+        s.draws = 0;
+        s.step_limit = step_limit;
+    });
+}
+
 /// Queue bytes that replace the next candidate(s).
 pub fn rng_inject(b: [u8; 32]) {
     RNG.with(|s| s.borrow_mut().inject.push_back(b));
